@@ -88,6 +88,16 @@ func c11Scenarios(thorough bool) ([]*Scenario, map[string]c11Param) {
 			add(c11Param{code: c, burst: 1, which: 2})
 		}
 	}
+	// "merely unreachable": the first change is committed while the device is offline, a second one is rejected by the
+	// model and aborted behind it, a third follows; the device connects at any time. Nothing was refused by the device:
+	// the first and third change are applied once it can be reached, in order.
+	scs = append(scs, &Scenario{Name: "S7u Set while T1 is unreachable, a Set the model rejects, a third Set; the device connects at any time", Cfg: WorldConfig{Targets: []string{"T1"}},
+		Init: func(w *World) {
+			w.plugins["T1"].SetVerdict(rejectIf(func(f map[string]string) bool { return f["/cont/leafA2"] == "bad" }, "leafA2 must not be bad"))
+		},
+		Requests: []SetReqOrCall{setReq("T1.leafA=1", upd("T1", "/cont/leafA", "1")), setReq("T1.leafA2=bad", upd("T1", "/cont/leafA2", "bad")), setReq("T1.sub/leafC=c", upd("T1", "/cont/sub/leafC", "c"))},
+		Faults:   []FaultSpec{faultConnUp("T1")}, FaultBudget: 1})
+	params[scs[len(scs)-1].Name] = c11Param{code: codes.OK}
 	// a refusal of a subtree delete, followed by a new mastership term: "the device is left as it was" must also hold
 	// after the re-synchronisation that the reconnection causes
 	scs = append(scs, &Scenario{Name: "S6d leaves applied on T1; a delete of their container that the device refuses (InvalidArgument), then a Set; connection lost and re-established anywhere", Cfg: WorldConfig{Targets: []string{"T1"}},
@@ -140,6 +150,30 @@ func checkC11(rc *RunCtx) *Report {
 	terminal := func(sc *Scenario, w *World) (string, string) {
 		p := params[sc.Name]
 		v := w.View()
+		if strings.HasPrefix(sc.Name, "S7u") {
+			if len(v.Txs) < 3 {
+				return "", ""
+			}
+			for i, tx := range v.Txs {
+				if i != 1 && tx.Status.State == configapi.TransactionStatus_FAILED {
+					return "unreachable-device-fails-the-change", fmt.Sprintf("the device was merely unreachable, yet transaction %d is FAILED (%s)", i+1, failText(tx.Status.Failure))
+				}
+			}
+			if w.conns.LiveConn(topoID("T1")) == "" {
+				return "", ""
+			}
+			for _, i := range []int{0, 2} {
+				if v.Txs[i].Status.State != configapi.TransactionStatus_APPLIED {
+					return "pending-change-not-applied-once-reachable", fmt.Sprintf("nothing can act any more, T1 connected, transaction %d is %s (%s)", i+1, v.Txs[i].Status.State, txPhasesText(v.Txs[i].Status.Phases))
+				}
+			}
+			wl := []string{`/cont/leafA=string:"1"`, `/cont/sub/leafC=string:"c"`}
+			sort.Strings(wl)
+			if dev := c11DeviceText(w); dev != strings.Join(wl, ";") {
+				return "pending-change-not-on-the-device-once-reachable", fmt.Sprintf("nothing can act any more, T1 connected, transactions 1 and 3 APPLIED, but the device holds %q, expected %q", dev, strings.Join(wl, ";"))
+			}
+			return "", ""
+		}
 		if strings.HasPrefix(sc.Name, "S6d") {
 			// transactions: 1 = prefix (applied), 2 = the refused delete, 3 = the later Set
 			if len(v.Txs) < 3 {
